@@ -2,6 +2,7 @@ package json
 
 import (
 	stdjson "encoding/json"
+	"io"
 )
 
 // ---- reference token classifiers for the free-bytes decoder harness
@@ -490,4 +491,121 @@ func vfH_c02_roundtrip() {
 		vfAssert(string(doc3) == string(doc), "second-decode-same-value")
 	}
 	vfCover("done")
+}
+
+type jKeys struct {
+	Name string `json:"name"`
+	ID   int8   `json:"id"`
+	Nm   string `json:"nam"`
+}
+
+// H02-keys: object keys against a struct target, on the machine-independent field index (vfFlags 0) and on the keyset
+// fast path that CPUs with AVX/ASIMD take (vfFlags 1): the key is a field name, a case variant, a proper prefix, or a
+// name followed by extra bytes (one arbitrary byte written raw or as \u00XX, which includes NUL): the field is set
+// exactly when encoding/json matches the key (exact, else case-insensitive), otherwise the member is skipped.
+func vfH_c02_keys() {
+	if vfFlags&1 != 0 {
+		vfCPUAll()
+	}
+	names := []string{"name", "id", "nam"}
+	base := names[vfIntIn(0, 2)]
+	key := []byte(base)
+	extra := byte(0)
+	switch vfMode {
+	case 0: // exact
+	case 1: // one letter in the other case
+		i := vfIntIn(0, len(key)-1)
+		key[i] ^= 0x20
+	case 2: // proper prefix
+		key = key[:len(key)-1]
+	case 3: // name + one arbitrary byte, escaped as \u00XX
+		extra = vfByte()
+	case 4: // name + one arbitrary raw byte (printable ASCII other than quote and backslash)
+		extra = vfByte()
+		vfAssume(extra >= 0x20 && extra < 0x7f && extra != '"' && extra != '\\')
+	}
+	doc := []byte(`{"`)
+	doc = append(doc, key...)
+	keyStr := string(key)
+	if vfMode == 3 {
+		const hex = "0123456789abcdef"
+		doc = append(doc, '\\', 'u', '0', '0', hex[extra>>4], hex[extra&15])
+		keyStr += string(rune(extra)) // U+0000..U+00FF
+	} else if vfMode == 4 {
+		doc = append(doc, extra)
+		keyStr += string(rune(extra))
+	}
+	doc = append(doc, `":`...)
+	isID := false
+	// which field does encoding/json pick? exact match first, else ASCII case-insensitive match (names are lower-case
+	// ASCII letters, for which simple folding is ASCII case folding plus U+212A KELVIN SIGN -> k, not reachable here)
+	match := ""
+	for _, n := range names {
+		if keyStr == n {
+			match = n
+		}
+	}
+	if match == "" {
+		for _, n := range names {
+			if len(keyStr) == len(n) {
+				eq := true
+				for i := 0; i < len(n); i++ {
+					c := keyStr[i]
+					if c >= 'A' && c <= 'Z' {
+						c += 0x20
+					}
+					if c != n[i] {
+						eq = false
+					}
+				}
+				if eq && match == "" {
+					match = n
+				}
+			}
+		}
+	}
+	isID = match == "id"
+	if base == "id" || isID {
+		doc = append(doc, `7}`...)
+	} else {
+		doc = append(doc, `"v"}`...)
+	}
+	var got jKeys
+	err := Unmarshal(doc, &got)
+	if vfNative() {
+		var std jKeys
+		serr := stdjson.Unmarshal(doc, &std)
+		want := jKeys{}
+		switch match {
+		case "name":
+			want.Name = "v"
+		case "id":
+			want.ID = 7
+		case "nam":
+			want.Nm = "v"
+		}
+		wantErr := match != "" && ((match == "id") != (base == "id" || isID))
+		if (serr != nil) != wantErr || (serr == nil && std != want) {
+			vfModelBug("key matching model != encoding/json")
+		}
+	}
+	typeErr := match != "" && ((match == "id") != (base == "id" || isID))
+	vfAssert((err != nil) == typeErr, "error-iff-encoding/json-fails")
+	if err == nil {
+		vfAssert((got.Name == "v") == (match == "name"), "field-name-set-iff-matched")
+		vfAssert((got.ID == 7) == (match == "id"), "field-id-set-iff-matched")
+		vfAssert((got.Nm == "v") == (match == "nam"), "field-nam-set-iff-matched")
+		vfAssert(got.Name == "" || got.Name == "v", "field-name-value")
+	}
+	if match == "" {
+		vfCover("skipped")
+	} else {
+		vfCover("matched")
+	}
+	// DisallowUnknownFields: an unmatched key is an error, a matched one is not
+	dec := NewDecoder(&chunkReader{data: doc, end: len(doc), sizes: [3]int{64, 64, 64}, err: io.EOF})
+	dec.DisallowUnknownFields()
+	var g2 jKeys
+	err2 := dec.Decode(&g2)
+	vfAssert((err2 != nil) == (match == "" || typeErr), "DisallowUnknownFields-reports-exactly-unmatched-keys")
 }
